@@ -1071,7 +1071,9 @@ int ABT_thread_get_state(ABT_thread thread, ABT_thread_state *state)
     ABTI_thread *p_thread = ABTI_thread_get_ptr(thread);
     ABTI_CHECK_NULL_THREAD_PTR(p_thread);
 
+    ABTI_VERIF_BEGIN();
     *state = (ABT_thread_state)ABTD_atomic_acquire_load_int(&p_thread->state);
+    ABTI_VERIF_END(ABTI_VEV_STATE_LOAD, p_thread, 5, *state);
     return ABT_SUCCESS;
 }
 
@@ -1435,6 +1437,14 @@ int ABT_thread_resume(ABT_thread thread)
 
 #ifndef ABT_CONFIG_ENABLE_VER_20_API
     /* The ULT must be in BLOCKED state. */
+#ifdef ABT_VERIF
+    if (ABTI_VERIF_ON()) {
+        ABTI_VERIF_BEGIN();
+        int verif_state = ABTD_atomic_acquire_load_int(&p_ythread->thread.state);
+        ABTI_VERIF_END(ABTI_VEV_STATE_LOAD, &p_ythread->thread, 4, verif_state);
+        ABTI_CHECK_TRUE(verif_state == ABT_THREAD_STATE_BLOCKED, ABT_ERR_THREAD);
+    }
+#endif
     ABTI_CHECK_TRUE(ABTD_atomic_acquire_load_int(&p_ythread->thread.state) ==
                         ABT_THREAD_STATE_BLOCKED,
                     ABT_ERR_THREAD);
@@ -2681,8 +2691,10 @@ ABTU_ret_err int ABTI_thread_handle_request_migrate(ABTI_global *p_global,
     ABTI_CHECK_ERROR(abt_errno);
 
     /* Extracting an argument embedded in a migration request. */
+    ABTI_VERIF_BEGIN();
     ABTI_pool *p_pool =
         ABTD_atomic_relaxed_load_ptr(&p_mig_data->p_migration_pool);
+    ABTI_VERIF_END(ABTI_VEV_MIG_LOAD, p_thread, p_pool, 0);
 
     /* Change the associated pool */
     abt_errno = ABTI_thread_set_associated_pool(p_global, p_thread, p_pool);
@@ -2690,6 +2702,7 @@ ABTU_ret_err int ABTI_thread_handle_request_migrate(ABTI_global *p_global,
     /* Call a callback function */
     if (p_mig_data->f_migration_cb) {
         ABT_thread thread = ABTI_thread_get_handle(p_thread);
+        ABTI_VERIF_EV(ABTI_VEV_MIG_CB, p_thread, 0, 0);
         p_mig_data->f_migration_cb(thread, p_mig_data->p_migration_cb_arg);
     }
     /* Unset the migration request. */
@@ -2907,8 +2920,10 @@ ythread_create(ABTI_global *p_global, ABTI_local *p_local, ABTI_pool *p_pool,
     p_newthread->thread.f_thread = thread_func;
     p_newthread->thread.p_arg = arg;
 
+    ABTI_VERIF_BEGIN();
     ABTD_atomic_release_store_int(&p_newthread->thread.state,
                                   ABT_THREAD_STATE_READY);
+    ABTI_VERIF_END(ABTI_VEV_UNIT_INIT, &p_newthread->thread, thread_type, p_pool);
     ABTD_atomic_release_store_uint32(&p_newthread->thread.request, 0);
     p_newthread->thread.p_last_xstream = NULL;
     p_newthread->thread.p_parent = NULL;
@@ -2982,8 +2997,10 @@ thread_revive(ABTI_global *p_global, ABTI_local *p_local, ABTI_pool *p_pool,
     p_thread->f_thread = thread_func;
     p_thread->p_arg = arg;
 
+    ABTI_VERIF_BEGIN();
     ABTD_atomic_relaxed_store_int(&p_thread->state, ABT_THREAD_STATE_READY);
     ABTD_atomic_relaxed_store_uint32(&p_thread->request, 0);
+    ABTI_VERIF_END(ABTI_VEV_UNIT_REVIVE, p_thread, 0, p_pool);
     p_thread->p_last_xstream = NULL;
     p_thread->p_parent = NULL;
 
@@ -3025,8 +3042,10 @@ ABTU_ret_err static int thread_migrate_to_pool(ABTI_global *p_global,
         ABTI_thread_get_mig_data(p_global, p_local, p_thread, &p_mig_data);
     ABTI_CHECK_ERROR(abt_errno);
 
+    ABTI_VERIF_BEGIN();
     ABTD_atomic_relaxed_store_ptr(&p_mig_data->p_migration_pool,
                                   (void *)p_pool);
+    ABTI_VERIF_END(ABTI_VEV_MIG_STORE, p_thread, p_pool, 0);
     ABTI_thread_set_request(p_thread, ABTI_THREAD_REQ_MIGRATE);
     return ABT_SUCCESS;
 }
@@ -3035,6 +3054,7 @@ ABTU_ret_err static int thread_migrate_to_pool(ABTI_global *p_global,
 static inline void thread_free(ABTI_global *p_global, ABTI_local *p_local,
                                ABTI_thread *p_thread, ABT_bool free_unit)
 {
+    ABTI_VERIF_EV(ABTI_VEV_UNIT_FREE, p_thread, free_unit, 0);
     /* Invoke a thread freeing event. */
     ABTI_event_thread_free(p_local, p_thread,
                            ABTI_local_get_xstream_or_null(p_local)
@@ -3088,6 +3108,8 @@ static void thread_join_busywait(ABTI_thread *p_thread)
            ABT_THREAD_STATE_TERMINATED) {
         ABTD_atomic_pause();
     }
+    ABTI_VERIF_BEGIN();
+    ABTI_VERIF_END(ABTI_VEV_STATE_LOAD, p_thread, 2, ABTD_atomic_acquire_load_int(&p_thread->state));
     ABTI_event_thread_join(NULL, p_thread, NULL);
 }
 
@@ -3097,8 +3119,10 @@ static void thread_join_futexwait(ABTI_thread *p_thread)
     ABTI_ythread *p_ythread = ABTI_thread_get_ythread_or_null(p_thread);
     if (p_ythread) {
         /* tell that this thread will join */
+        ABTI_VERIF_BEGIN();
         uint32_t req = ABTD_atomic_fetch_or_uint32(&p_ythread->thread.request,
                                                    ABTI_THREAD_REQ_JOIN);
+        ABTI_VERIF_END(ABTI_VEV_REQ_OR, &p_ythread->thread, ABTI_THREAD_REQ_JOIN, req);
         if (!(req & ABTI_THREAD_REQ_JOIN)) {
             ABTD_futex_single futex;
             ABTD_futex_single_init(&futex);
@@ -3106,9 +3130,11 @@ static void thread_join_futexwait(ABTI_thread *p_thread)
             dummy_ythread.thread.type = ABTI_THREAD_TYPE_EXT;
             /* Just arbitrarily choose p_arg to store futex. */
             dummy_ythread.thread.p_arg = &futex;
+            ABTI_VERIF_BEGIN();
             ABTD_atomic_release_store_ythread_context_ptr(&p_ythread->ctx
                                                                .p_link,
                                                           &dummy_ythread.ctx);
+            ABTI_VERIF_END(ABTI_VEV_LINK_STORE, &p_ythread->thread, &dummy_ythread.thread, 1);
             ABTD_futex_suspend(&futex);
             /* Resumed. */
         } else {
@@ -3132,12 +3158,22 @@ static void thread_join_yield_thread(ABTI_xstream **pp_local_xstream,
                            ABTI_YTHREAD_YIELD_KIND_YIELD_LOOP,
                            ABT_SYNC_EVENT_TYPE_THREAD_JOIN, (void *)p_thread);
     }
+    ABTI_VERIF_BEGIN();
+    ABTI_VERIF_END(ABTI_VEV_STATE_LOAD, p_thread, 3, ABTD_atomic_acquire_load_int(&p_thread->state));
     ABTI_event_thread_join(ABTI_xstream_get_local(*pp_local_xstream), p_thread,
                            &p_self->thread);
 }
 
 static inline void thread_join(ABTI_local **pp_local, ABTI_thread *p_thread)
 {
+#ifdef ABT_VERIF
+    if (ABTI_VERIF_ON()) {
+        /* record the value read by the fast-path test */
+        ABTI_VERIF_BEGIN();
+        int verif_state = ABTD_atomic_acquire_load_int(&p_thread->state);
+        ABTI_VERIF_END(ABTI_VEV_STATE_LOAD, p_thread, 1, verif_state);
+    }
+#endif
     if (ABTD_atomic_acquire_load_int(&p_thread->state) ==
         ABT_THREAD_STATE_TERMINATED) {
         ABTI_event_thread_join(*pp_local, p_thread,
@@ -3184,8 +3220,10 @@ static inline void thread_join(ABTI_local **pp_local, ABTI_thread *p_thread)
     /* Tell p_ythread that there has been a join request. */
     /* If request already has ABTI_THREAD_REQ_JOIN, p_ythread is
      * terminating. We can't block p_self in this case. */
+    ABTI_VERIF_BEGIN();
     uint32_t req = ABTD_atomic_fetch_or_uint32(&p_ythread->thread.request,
                                                ABTI_THREAD_REQ_JOIN);
+    ABTI_VERIF_END(ABTI_VEV_REQ_OR, &p_ythread->thread, ABTI_THREAD_REQ_JOIN, req);
     if (req & ABTI_THREAD_REQ_JOIN) {
         /* Fall-back to the yield-based join. */
         thread_join_yield_thread(&p_local_xstream, p_self, &p_ythread->thread);
@@ -3233,8 +3271,10 @@ static void thread_root_func(void *arg)
     /* The main scheduler thread finishes. */
 
     /* Set the ES's state as TERMINATED */
+    ABTI_VERIF_BEGIN();
     ABTD_atomic_release_store_int(&p_local_xstream->state,
                                   ABT_XSTREAM_STATE_TERMINATED);
+    ABTI_VERIF_END(ABTI_VEV_XSTATE, p_local_xstream, ABT_XSTREAM_STATE_TERMINATED, 0);
 
     if (p_local_xstream->type == ABTI_XSTREAM_TYPE_PRIMARY) {
         /* Let us jump back to the primary thread (then finalize Argobots) */
@@ -3280,8 +3320,10 @@ static void thread_main_sched_func(void *arg)
             ABTI_ythread_resume_and_push(p_local, p_waiter);
         }
         ABTI_ASSERT(p_sched == p_local_xstream->p_main_sched);
+        ABTI_VERIF_BEGIN();
         uint32_t request = ABTD_atomic_acquire_load_uint32(
             &p_sched->p_ythread->thread.request);
+        ABTI_VERIF_END(ABTI_VEV_REQ_LOAD, &p_sched->p_ythread->thread, 2, request);
 
         /* If there is an exit or a cancel request, the ES terminates
          * regardless of remaining work units. */
@@ -3297,6 +3339,7 @@ static void thread_main_sched_func(void *arg)
         }
     }
     /* Finish this thread and goes back to the root thread. */
+    ABTI_VERIF_EV(ABTI_VEV_SCHED_STOP, p_local_xstream->p_main_sched, 0, 0);
 }
 
 static inline ABT_unit_id thread_get_new_id(void)
